@@ -1,7 +1,8 @@
 """C05 — generated programs are closed and respect scoping and mutability rules (partial).
 
 Proof side : lean/Heph/Props/C05.lean — `closed_sound`/`closed_complete` (the scope walker `closedCheck` decides the
-             declarative `Closed`), `assignableVars_nonfinal`, `word_fresh`, `identifiers_distinct`,
+             declarative `Closed`), `capture_sound`/`capture_complete`/`closed_capturesOK` (`captureCheck` decides javac's
+             capture rule `CapturesOK`; the generator's rule implies it), `assignableVars_nonfinal`, `word_fresh`, `identifiers_distinct`,
              `identifier_not_reserved` (both removal variants; counterexample for the code as it is on the regenerated
              keyword tables).  `harness/regen_c05.py` rewrites lean/Heph/Generated/Keywords.lean before the build.
 Streams    :
@@ -17,11 +18,30 @@ Streams    :
   mutants      the checker is not vacuous: every mutant (unbound variable/function/assignment target, everything
                final, every class abstract, duplicated declaration, a declared name made a keyword) of explored
                programs must be rejected (else harness error).
+  direct       DIRECT decision-point stream (harness/c05_direct.py): the real Generator in crafted contexts, a FIXED plan of
+               cases (host: method of the parameterized class Cls<N, U> / parameterized function / plain function; chain
+               of nested functions and lambdas entered through the real gen_func_decl / gen_lambda; script of one to three
+               real routines; expected type: bare type variable, type variables at depth 1 and 2, function type, ground;
+               generator seed; switches; policies), CPU cap per case.  Judges of the RESULT STATE: `closed.check` and the
+               verified capture checker (`Capture.captureCheck`: javac's effectively-final rule) on the fragment; on the
+               live objects: type variables of every created declaration are introduced by an enclosing declaration
+               (where did `_gen_matching_func` put the helper?), Java capture (no read of a non-final / assignment of any
+               local of an enclosing body inside a lambda or nested function), `namespace` / `_inside_java_lambda` /
+               `declaration_namespace` / `_in_super_call` after every routine equal their values before it.  Negative
+               controls (helper forced to top level for each type-variable shape; flag dropped after a lambda) must be
+               flagged, else harness error.
   programs     `pipeline.run_many` over languages x switch settings x seeds; the verified `closed.check` runs on the
                'gen' and the 'erase' export of every program (a rejection IS a failing input: replay = generator
                tuple + stage + path + reason); every call of `_get_assignable_vars` is recorded
                (plugin_assignable), judged against the declarations (target non-final, nothing inside a Java lambda)
-               and compared with the Lean model `assignableVars`.
+               and compared with the Lean model `assignableVars`.  The plan is fixed and the budget is CPU time summed
+               over the workers (plugin_scope; per-program CPU cap; wall clock only as a safety net); every third program
+               runs with generation policies (cfg.prob.* / cfg.limits.*) that favour lambdas, direct calls and side
+               effects; `captureCheck` runs on every export; `namespace` / `_inside_java_lambda` are checked after every
+               gen_lambda / gen_func_decl / _gen_func_ref_lambda / gen_class_decl of every run; evidence per language
+               (`scoping_machinery_per_language`): programs, lambdas, nested lambdas, nested functions, member functions of
+               parameterized classes, helpers made by _gen_matching_func / _gen_matching_class by expected-type shape and
+               placement.
 """
 import collections
 import json
@@ -33,11 +53,14 @@ import tempfile
 import time
 
 import common
+import c05_direct
 import pipeline
+import plugin_scope
 import regen_c05
 
 LEVEL = "proof"
 PLUGIN = "plugin_assignable"
+SCOPE_PLUGIN = "plugin_scope"     # must be installed last: it may skip the program (CPU budget)
 STAGES = ("gen", "erase")
 LANGS = pipeline.LANGS
 MODES = (None, "lower", "capitalize")
@@ -407,14 +430,27 @@ def pool_stream(run, tables, variant, ndraws):
 
 
 # ------------------------------------------------------------------ programs
-def make_specs(rng, langs, settings, nseeds, depths, cap):
+# generation policies the harness sets per program (cfg.prob.* / cfg.limits.*; None = the defaults): more lambdas than
+# function references, direct calls instead of reference calls, more side effects (assignments) and locals
+KNOB_SETS = (None,
+             {"func_ref": 0.1, "max_side_effects": 3, "max_var_decls": 4},
+             {"func_ref": 0.2, "func_ref_call": 0.3, "max_side_effects": 2, "function_expr": 0.5})
+
+
+def make_specs(rng, langs, settings, nseeds, depths, cap, cpu_cap=None, knob_sets=(None,)):
     specs = []
     for lang in langs:
         for sw in settings:
             for k in range(nseeds):
-                specs.append({"lang": lang, "seed": rng.randrange(1, 10 ** 6), "switches": tuple(sw),
-                              "max_depth": depths[k % len(depths)], "stages": list(STAGES), "export": True,
-                              "plugins": [PLUGIN], "cap": cap})
+                sp = {"lang": lang, "seed": rng.randrange(1, 10 ** 6), "switches": tuple(sw),
+                      "max_depth": depths[k % len(depths)], "stages": list(STAGES), "export": True,
+                      "plugins": [PLUGIN, SCOPE_PLUGIN], "cap": cap}
+                if cpu_cap:
+                    sp["cpu_cap"] = cpu_cap
+                kn = knob_sets[k % len(knob_sets)]
+                if kn:
+                    sp["knobs"] = dict(kn)
+                specs.append(sp)
     rng.shuffle(specs)
     return specs
 
@@ -422,16 +458,23 @@ def make_specs(rng, langs, settings, nseeds, depths, cap):
 def replay_of(spec, **kw):
     d = {"lang": spec["lang"], "gen_seed": spec["seed"], "switches": list(spec["switches"]),
          "max_depth": spec["max_depth"]}
+    if spec.get("knobs"):
+        d["knobs"] = spec["knobs"]
     d.update(kw)
     return d
 
 
-def stream_results(specs, deadline, workers):
+def stream_results(specs, deadline, workers, cpu_budget=None):
+    """the plan is fixed; the budget is CPU time summed over the workers (plugin_scope skips the programs that are left
+    once it is spent), `deadline` is a wall-clock safety net"""
     if len(specs) <= 2:
         for s in specs:
             yield s, pipeline.run_one(s)
         return
     ctx = multiprocessing.get_context("fork")
+    if cpu_budget:
+        plugin_scope.BUDGET["value"] = ctx.Value("d", 0.0)
+        plugin_scope.BUDGET["limit"] = cpu_budget
     pool = ctx.Pool(workers, initializer=pipeline._worker_init, maxtasksperchild=25)
     try:
         it = pool.imap_unordered(pipeline.run_one, specs, chunksize=1)
@@ -447,13 +490,15 @@ def stream_results(specs, deadline, workers):
     finally:
         pool.terminate()
         pool.join()
+        plugin_scope.BUDGET["value"] = None
 
 
-def check_request(export, kws, stats=True):
+def check_request(export, kws, stats=True, capture=True):
     rq = dict(export)
     rq["op"] = "closed.check"
     rq["keywords"] = kws
     rq["stats"] = stats
+    rq["capture"] = capture
     return rq
 
 
@@ -562,7 +607,25 @@ def assignable_requests(calls):
     return reqs
 
 
-def programs_stream(run, specs, tables, budget_s, label="programs", flush_at=96):
+def capture_verdict(run, a, lang, obj, stream):
+    """closed.check also answered `Capture.captureCheck` (javac's effectively-final rule; verified:
+    capture_sound/capture_complete): a rejection is a failing input"""
+    cap = a.get("capture")
+    if cap is None:
+        return
+    n = a.get("captured") or [0, 0]
+    cu = run.cov.setdefault("captured_uses", {})
+    cu[lang] = [cu.get(lang, [0, 0])[0] + n[0], cu.get(lang, [0, 0])[1] + n[1]]
+    if cap != "ok":
+        shape = cap["reason"].split(":")[0]
+        run.tally("capture_rejections", "%s:%s" % (lang, shape))
+        report(run, dict(obj, kind="failing-input", stream=stream, path=cap["path"], reason=cap["reason"],
+                         note="the verified capture checker (javac: a local captured by a lambda / nested function is "
+                              "effectively final and is not assigned there) rejects this program"),
+               signature="capture:%s" % shape)
+
+
+def programs_stream(run, specs, tables, budget_s, label="programs", flush_at=96, cpu_budget=None):
     workers = min(12, max(2, (os.cpu_count() or 4) - 4))
     kinds = {l: collections.Counter() for l in LANGS}
     st8 = {"done": 0, "rejected": 0, "ass_diffs": 0}
@@ -585,6 +648,7 @@ def programs_stream(run, specs, tables, budget_s, label="programs", flush_at=96)
                 for k, v in (a.get("kinds") or {}).items():
                     kinds[lang][k] += v
                 site_coverage(run, spec, stage, rq_export, a.get("kinds") or {})
+                capture_verdict(run, a, lang, replay_of(spec, stage=stage), "programs")
                 if a["r"] != "ok":
                     st8["rejected"] += 1
                     run.log("REJECTED %s seed=%s switches=%s depth=%s stage=%s: %s" % (
@@ -608,9 +672,26 @@ def programs_stream(run, specs, tables, budget_s, label="programs", flush_at=96)
                                                          "function returned in this program is declared non-final"), signature="assignable:model-differs", no_input=True)
         del pending[:]
 
-    for spec, r in stream_results(specs, time.time() + budget_s, workers):
-        st8["done"] += 1
+    for spec, r in stream_results(specs, time.time() + budget_s, workers, cpu_budget):
         lang = spec["lang"]
+        sc = (r.get("plugins") or {}).get(SCOPE_PLUGIN) or {}
+        if "error" in sc:
+            raise common.HarnessError("plugin_scope: " + sc["error"])
+        if sc.get("skipped"):
+            st8["skipped"] = st8.get("skipped", 0) + 1
+            continue
+        st8["done"] += 1
+        st8["cpu"] = st8.get("cpu", 0.0) + sc.get("cpu_s", 0.0)
+        per = run.cov["scoping_machinery_per_language"].setdefault(lang, {"programs": 0})
+        per["programs"] += 1
+        for k, v in (sc.get("tally") or {}).items():
+            per[k] = per.get(k, 0) + v
+        for rec in sc.get("bad", []):
+            report(run, replay_of(spec, kind="failing-input", stream="frame", state=rec,
+                                  note="after the generator routine returned, `namespace` / `_inside_java_lambda` differ "
+                                       "from their values before the call: the scope of the rest of the enclosing body is "
+                                       "not the one the body was entered with"),
+                   signature="state:not-restored:%s" % rec["after"])
         if "cutoff" in r:
             run.tally("pipeline_cutoff", "%s:%s" % (lang, r["cutoff"]))
         if "exception" in r:
@@ -645,11 +726,190 @@ def programs_stream(run, specs, tables, budget_s, label="programs", flush_at=96)
         for k, v in kinds[l].items():
             cur[k] = cur.get(k, 0) + v
     run.cov["programs_done_within_budget"] += st8["done"]
+    run.cov["programs_skipped_cpu_budget_spent"] = run.cov.get("programs_skipped_cpu_budget_spent", 0) + st8.get("skipped", 0)
+    run.cov["programs_cpu_s"] = round(run.cov.get("programs_cpu_s", 0) + st8.get("cpu", 0.0), 1)
     run.cov["programs_planned"] += len(specs)
     run.cov["programs_rejected"] += st8["rejected"]
     run.log("%s: %d of %d programs within the budget, %d rejections, %d assignable differences"
             % (label, st8["done"], len(specs), st8["rejected"], st8["ass_diffs"]))
     return exports_for_mutants
+
+
+# ------------------------------------------------------------------ direct decision-point stream
+def direct_plan(rng, ncases, langs_weight):
+    """a FIXED number of cases: hosts x frame chains x scripts (one decision point, or prefix ; consumer) x expected-type
+    shapes x generator seeds, Java weighted (its capture rule has no counterpart in the other languages)"""
+    D = c05_direct
+    shapes = D.SHAPES_TV + D.SHAPES_GROUND
+    langs = [l for l, w in langs_weight for _ in range(w)]
+    cases = []
+    # structured part: every type-variable shape x every helper-creating decision point x every host with type variables
+    for shape in D.SHAPES_TV:
+        for op in ("matching_func", "func_call_plain", "func_ref", "matching_class_fun", "matching_class_fld"):
+            for host in ("method", "pfunc"):
+                for chain in ("", "n", "l"):
+                    cases.append((host, chain, [[op, shape]]))
+    # structured part: every prefix x every consumer inside nested frames (the state a finished sub-generation leaves)
+    for pre in D.PREFIX_OPS:
+        for con in D.CONSUMER_OPS:
+            for chain in ("n", "l", "nl", "ll"):
+                cases.append((rng.choice(D.HOSTS), chain, [[pre, rng.choice(shapes)], [con, rng.choice(shapes)]]))
+    rng.shuffle(cases)
+    out = []
+    i = 0
+    while len(out) < ncases:
+        if i < len(cases):
+            host, chain, script = cases[i]
+        else:
+            host, chain = rng.choice(D.HOSTS), rng.choice(D.CHAINS)
+            if rng.random() < 0.4:
+                script = [[rng.choice(D.OPS), rng.choice(shapes)]]
+            else:
+                script = [[rng.choice(D.PREFIX_OPS), rng.choice(shapes)], [rng.choice(D.CONSUMER_OPS), rng.choice(shapes)]]
+                if rng.random() < 0.3:
+                    script.append([rng.choice(D.CONSUMER_OPS), rng.choice(shapes)])
+        i += 1
+        lang = langs[len(out) % len(langs)]
+        kn = KNOB_SETS[len(out) % len(KNOB_SETS)]
+        c = {"lang": lang, "seed": rng.randrange(1, 10 ** 6), "switches": rng.choice([(0, 0, 0, 0), (0, 0, 0, 0), (1, 1, 0, 0), (0, 0, 1, 1)]),
+             "max_depth": rng.choice([2, 3, 3, 4]), "host": host, "chain": chain, "script": script}
+        if kn:
+            c["knobs"] = dict(kn)
+        out.append(c)
+    return out
+
+
+def _direct_worker(case):
+    import signal
+    old = signal.signal(signal.SIGPROF, pipeline._alarm)
+    signal.setitimer(signal.ITIMER_PROF, case.get("cpu_cap", 2))
+    try:
+        return c05_direct.run_case(case)
+    except pipeline.Cutoff:
+        return {"case": case, "cutoff": True, "problems": [], "tally": {}}
+    finally:
+        signal.setitimer(signal.ITIMER_PROF, 0)
+        signal.signal(signal.SIGPROF, old)
+        c05_direct.reset_knobs()
+
+
+def direct_replay_obj(case, **kw):
+    d = {"stream": "direct", "case": case}
+    d.update(kw)
+    return d
+
+
+def direct_stream(run, cases, tables, label="direct", sabotage_expected=None):
+    """run the cases (worker processes, fixed plan, CPU cap per case), judge the result state.  With
+    `sabotage_expected` the cases carry a deliberate harness-side sabotage (negative control): nothing is reported,
+    the number of cases the judges flag is returned"""
+    workers = min(12, max(2, (os.cpu_count() or 4) - 4))
+    t0 = time.time()
+    if len(cases) <= 2:
+        results = [_direct_worker(c) for c in cases]
+    else:
+        ctx = multiprocessing.get_context("fork")
+        with ctx.Pool(workers, initializer=pipeline._worker_init, maxtasksperchild=200) as pool:
+            results = pool.map(_direct_worker, cases, chunksize=8)
+    cov = run.cov.setdefault("direct", {"cases": 0, "cutoff": 0, "exceptions": {}, "per_language": {}, "decision_points": {},
+                                        "chains": {}, "hosts": {}, "judged_by_closed_check": 0})
+    reqs, owners = [], []
+    flagged = set()
+    for idx, r in enumerate(results):
+        case = r["case"]
+        lang = case["lang"]
+        if sabotage_expected is None:
+            cov["cases"] += 1
+            per = cov["per_language"].setdefault(lang, {"cases": 0, "nested_frames": 0, "captured_refs": 0})
+            per["cases"] += 1
+            for k, v in (r.get("counts") or {}).items():
+                per[k] = per.get(k, 0) + v
+            cov["chains"][case["chain"] or "-"] = cov["chains"].get(case["chain"] or "-", 0) + 1
+            cov["hosts"][case["host"]] = cov["hosts"].get(case["host"], 0) + 1
+            for k, v in r.get("tally", {}).items():
+                cov["decision_points"][k] = cov["decision_points"].get(k, 0) + v
+            run.count({"stream": label, "lang": lang, "host": case["host"], "chain": case["chain"],
+                       "script": case["script"]}, nontrivial=True)
+        if r.get("cutoff"):
+            cov["cutoff"] += 1
+            continue
+        if "exception" in r:
+            k = "%s:%s" % (lang, r["exception"]["type"])
+            cov["exceptions"][k] = cov["exceptions"].get(k, 0) + 1
+        for pr in r["problems"]:
+            if sabotage_expected is not None and pr["judge"] == "frame":
+                continue          # the sabotage itself; the control is about the judges of the RESULT
+            flagged.add(idx)
+            if sabotage_expected is None:
+                run.tally("direct_problems", "%s:%s" % (lang, pr["what"].split(":after:")[0]))
+                what = pr["what"]
+                sig = "direct:%s:%s" % (pr["judge"], what.split(":after:")[0] if pr["judge"] == "frame" else what)
+                if pr["judge"] == "capture" and pr.get("effectively_final"):
+                    # javac accepts a never re-assigned local: the generator's own rule (declared final) is broken, the
+                    # program still compiles — reported under its own signature
+                    sig += ":effectively-final"
+                report(run, direct_replay_obj(case, kind="failing-input", problem=pr,
+                                              note="specification-side judgement of the state the real decision points left "
+                                                   "in a crafted context (see harness/c05_direct.py)"), signature=sig)
+        if "export" in r:
+            reqs.append(check_request(r["export"], tables["keywords"][lang], stats=False))
+            owners.append((idx, case))
+    answers = run_driver(reqs) if reqs else []
+    for (idx, case), a in zip(owners, answers):
+        lang = case["lang"]
+        if "error" in a:
+            raise common.HarnessError("driver: %s on direct case %s" % (a["error"][:300], case))
+        if sabotage_expected is None:
+            cov["judged_by_closed_check"] += 1
+            run.cov["traces_validated_against_impl"] += 1
+        bad = a["r"] != "ok" or (a.get("capture") or "ok") != "ok"
+        if bad:
+            flagged.add(idx)
+        if sabotage_expected is not None:
+            continue
+        capture_verdict(run, a, lang, direct_replay_obj(case), "direct")
+        if a["r"] != "ok":
+            shape = reason_shape(a["r"]["reason"])
+            run.tally("direct_rejections", "%s:%s" % (lang, shape))
+            run.log("REJECTED direct case %s: %s" % (common.canon(case)[:300], a["r"]))
+            report(run, direct_replay_obj(case, kind="failing-input", path=a["r"]["path"], reason=a["r"]["reason"],
+                                          note="the verified scope walker rejects the fragment the real decision points "
+                                               "produced in a crafted context"), signature="closed:direct:%s" % shape)
+    if sabotage_expected is None:
+        cov["wall_s"] = round(cov.get("wall_s", 0) + time.time() - t0, 1)
+        run.log("%s: %d cases, %d flagged, %.0f s" % (label, len(cases), len(flagged), time.time() - t0))
+    if sabotage_expected is not None:
+        return len(flagged), sum(1 for r in results if "export" in r)
+    return len(flagged)
+
+
+def direct_negative_controls(run, tables, rng):
+    """the judges of the direct stream are not vacuous: cases with a harness-side sabotage of the state (the helper
+    declared at top level although its type mentions type variables — bare, at depth 1 and 2; `_inside_java_lambda`
+    dropped when a lambda is finished) must be flagged"""
+    tv_cases, fl_cases = [], []
+    for shape in ("tv", "box_tv", "box_box_tv", "two_box_tv", "fun_tv"):
+        for host in ("method", "pfunc"):
+            for chain in ("", "l"):
+                tv_cases.append({"lang": rng.choice(LANGS), "seed": rng.randrange(1, 10 ** 6), "switches": (0, 0, 0, 0),
+                                 "max_depth": 3, "host": host, "chain": chain, "script": [["matching_func", shape]],
+                                 "sabotage": "helper-at-top-level", "cpu_cap": 30})
+    for chain in ("n", "l", "nl", "ll"):
+        for con in ("assignable_all", "funvars_all", "objects_all"):
+            fl_cases.append({"lang": "java", "seed": rng.randrange(1, 10 ** 6), "switches": (0, 0, 0, 0), "max_depth": 3,
+                             "host": rng.choice(c05_direct.HOSTS), "chain": chain, "script": [["lambda_free", "int"], [con, "int"]],
+                             "sabotage": "flag-dropped-after-lambda", "cpu_cap": 30})
+    n1, j1 = direct_stream(run, tv_cases, tables, sabotage_expected=True)
+    n2, j2 = direct_stream(run, fl_cases, tables, sabotage_expected=True)
+    run.cov["direct"]["negative_controls"] = {"helper-at-top-level": {"flagged": n1, "judged": j1, "cases": len(tv_cases)},
+                                              "flag-dropped-after-lambda": {"flagged": n2, "judged": j2, "cases": len(fl_cases)}}
+    run.log("direct negative controls: helper-at-top-level %d/%d flagged, flag-dropped-after-lambda %d/%d flagged" % (
+        n1, j1, n2, j2))
+    # a case cut off by its CPU cap / ended by an exception of the generator has no fragment to judge
+    if j1 < len(tv_cases) // 2 or n1 != j1:
+        raise common.HarnessError("direct stream: %d of %d sabotaged helper placements flagged (%d cases)" % (n1, j1, len(tv_cases)))
+    if j2 < len(fl_cases) // 2 or n2 < j2 * 3 // 4:
+        raise common.HarnessError("direct stream: %d of %d dropped-flag cases flagged (%d cases)" % (n2, j2, len(fl_cases)))
 
 
 # ------------------------------------------------------------------ mutants (the checker is not vacuous)
@@ -735,6 +995,28 @@ def mutants(export):
         e["tt"] = e["tt"] + [{"k": "v", "name": "ZZUNBOUND", "var": 0, "bound": None}]
         n["varType"] = len(e["tt"]) - 1
         out.append(("type-variable-out-of-scope", e, [], {"type-variable-out-of-scope"}))
+    # … and NESTED in the signature of a top-level function: `Box<ZZUNBOUND>` / `Box<Box<ZZUNBOUND>>` as return type
+    pcls = next((d for d in export["decls"] if d.get("n") == "class" and len(d["tparams"]) == 1), None)
+    ptype = None
+    if pcls is not None:
+        ptype = next((i for i, ent in enumerate(tt) if ent.get("k") == "p" and ent.get("name") == pcls["name"]), None)
+    for depth in (1, 2):
+        if ptype is None:
+            break
+        e = copy.deepcopy(export)
+        n = next((d for d in e["decls"] if d.get("n") == "func" and d["retType"] is not None), None)
+        if n is None:
+            break
+        tt2 = e["tt"]
+        tt2.append({"k": "v", "name": "ZZUNBOUND", "var": 0, "bound": None})
+        cur = len(tt2) - 1
+        for _ in range(depth):
+            ent = copy.deepcopy(tt2[ptype])
+            ent["args"] = [cur]
+            tt2.append(ent)
+            cur = len(tt2) - 1
+        n["retType"] = cur
+        out.append(("type-variable-out-of-scope-nested-%d" % depth, e, [], {"type-variable-out-of-scope"}))
     # one constructor argument too few
     e = copy.deepcopy(export)
     n = first_node(e, "new", lambda n: new_of_declared(n) and n["args"])
@@ -780,6 +1062,7 @@ def init_cov(run):
         run.cov[k] = 0
     run.cov["assignable_tally"] = {}
     run.cov["use_sites_per_language"] = {}
+    run.cov["scoping_machinery_per_language"] = {}
 
 
 def variant_stream(run, tables):
@@ -822,15 +1105,23 @@ def check(run):
     reserved_stream(run, tables, variant)
     # 2. the pool model
     pool_stream(run, tables, variant, 10 ** 4 if quick else 10 ** 5)
-    # 3. programs
+    # 3. direct decision-point stream: the real Generator in crafted contexts (fixed plan, CPU cap per case)
+    drng = random.Random(run.rng.randrange(1 << 30))
+    direct_negative_controls(run, tables, drng)
+    dcases = direct_plan(drng, 2400 if quick else 24000, [("java", 3), ("kotlin", 1), ("groovy", 1), ("scala", 1)])
+    direct_stream(run, dcases, tables)
+    # 4. programs: the plan is fixed, the budget is CPU time summed over the workers (wall clock only as a safety net);
+    # per-program CPU cap; every third program with generation policies that exercise the scoping machinery
     settings = [(0, 0, 0, 0), (1, 1, 0, 0), (0, 0, 1, 1)] if quick else pipeline.all_switch_settings()
-    nseeds, cap, budget = (12, 60, 100) if quick else (150, 120, 1300)
-    depths = [3, 4, 5, 5, 6, 6] if quick else [4, 5, 5, 6, 6, 7]
-    specs = make_specs(run.rng, LANGS, settings, nseeds, depths, cap)
-    # the effectively-final rule only shows in Java programs with lambdas / nested functions: more of those (small)
-    specs += make_specs(run.rng, ["java"], [(0, 0, 0, 0), (0, 0, 1, 1)], 18 if quick else 300, [4, 4, 5], cap)
+    nseeds, cap, cpu_cap, cpu_budget, wall = (10, 90, 12, 360, 400) if quick else (150, 240, 60, 14000, 3000)
+    depths = [3, 4, 5, 5, 6, 4] if quick else [4, 5, 5, 6, 6, 7]
+    specs = make_specs(run.rng, LANGS, settings, nseeds, depths, cap, cpu_cap, KNOB_SETS)
+    # the effectively-final rule only shows in Java programs with lambdas / nested functions; helper functions for
+    # types with type variables need parameterized classes / functions: more of those (small)
+    specs += make_specs(run.rng, ["java"], [(0, 0, 0, 0), (0, 0, 1, 1)], 24 if quick else 300, [4, 4, 5], cap, cpu_cap,
+                        KNOB_SETS)
     run.rng.shuffle(specs)
-    # the budget cuts the stream off on a loaded machine: hand the Java programs out first, two for one other
+    # the budget cuts the stream off: hand the Java programs out first, two for one other
     # (quick tier only; the thorough stream stays uniformly shuffled over the languages)
     if quick:
         java = [x for x in specs if x["lang"] == "java"]
@@ -839,15 +1130,20 @@ def check(run):
         while java or other:
             specs += java[:2] + other[:1]
             java, other = java[2:], other[1:]
-    exports = programs_stream(run, specs, tables, budget)
-    # 4. the checker rejects what it must
+    exports = programs_stream(run, specs, tables, wall, cpu_budget=cpu_budget)
+    budget = cpu_budget
+    # 5. the checker rejects what it must
     mutant_stream(run, exports, tables, 12 if quick else 40)
     run.cov["exhaustive"] = False
-    run.cov["stream_budget_s"] = budget
+    run.cov["stream_budget_cpu_s"] = budget
     run.cov["rule"] = (
-        "case = (generator replay (lang, seed, switches, max_depth), stage in gen/erase): closed.check (verified scope "
-        "walker) on the by-value export with the keyword table of the language, + every _get_assignable_vars call of the "
-        "run judged against the declarations and compared with the Lean model; + one case per pool operation history "
+        "case = (generator replay (lang, seed, switches, max_depth[, knobs]), stage in gen/erase): closed.check (verified "
+        "scope walker + verified capture checker) on the by-value export with the keyword table of the language, + frame "
+        "discipline of namespace/_inside_java_lambda at every gen_lambda/gen_func_decl, + every _get_assignable_vars call of the "
+        "run judged against the declarations and compared with the Lean model; + one case per DIRECT decision-point case "
+        "(lang, seed, switches, depth, host, frame chain, script of real generator routines x expected-type shapes, knobs): "
+        "closed.check + capture check of the fragment, type-variable scope / capture / frame judges on the live state; "
+        "+ one case per pool operation history "
         "(exact correspondence with RandomUtils, draws fed to the model); + the exhaustive word-file x language x mode "
         "walk on the real remove_reserved_words / gen_identifier; distinct by replay tuple / history shape")
     # a broken obligation for which no stream produced a (new) failing input is reported as such; a known finding
@@ -883,6 +1179,15 @@ def replay(run, rp):
         elif detail is not None:
             report(run, dict(rp, detail=detail), signature="pool:model-differs", no_input=True)
         return
+    if stream == "direct":
+        case = rp["case"]
+        case["switches"] = tuple(case.get("switches", (0, 0, 0, 0)))
+        case["script"] = [list(x) for x in case["script"]]
+        direct_stream(run, [case], tables, label="replay-direct")
+        return
     spec = {"lang": rp["lang"], "seed": rp["gen_seed"], "switches": tuple(rp["switches"]), "max_depth": rp["max_depth"],
-            "stages": list(STAGES), "export": True, "plugins": [PLUGIN], "cap": 600, "assignable_cap": 10 ** 6}
+            "stages": list(STAGES), "export": True, "plugins": [PLUGIN, SCOPE_PLUGIN], "cap": 600,
+            "assignable_cap": 10 ** 6}
+    if rp.get("knobs"):
+        spec["knobs"] = rp["knobs"]
     programs_stream(run, [spec], tables, 10 ** 6, label="replay")
